@@ -559,17 +559,19 @@ class Multiway(_Base):
             else:
                 for bits in itertools.product((0, 1), repeat=3):
                     out.append(dict(n=n, lab0=[0] * n, lab1=[0] * n, lab2=[0] * n, fix={"a0.%d" % i: b for i, b in enumerate(bits)}))
-        for n in ([3] if tier == "quick" else [3, 4]):
-            for lab0 in _rg(n, True):
-                for lab1 in _rg(n, False):
-                    out.append(dict(n=n, lab0=lab0, lab1=lab1, unphased=False))
+        for lab0 in _rg(3, True):
+            for lab1 in _rg(3, False):
+                out.append(dict(n=3, lab0=lab0, lab1=lab1, unphased=False))
         if tier == "quick":
             for lab0 in ([0, 0, 1, 1], [0, 1, 0, 1]):
                 out.append(dict(n=4, lab0=lab0, lab1=[0] * 4, lab2=[0] * 4))
+        else:
+            for lab0 in _rg(4, False):
+                out.append(dict(n=4, lab0=lab0, lab1=[0] * 4, unphased=False))
         return out
 
     def bounds(self, tier):
-        return "three files; one block of n = 2..%d variants with all 8^n haplotype strings; n = 3%s with every phase-set structure (<= 2 sets per file, unphased variants in file 0)%s" % ((4, "", "; n = 4 with two sets in file 0") if tier == "quick" else (5, "..4", ""))
+        return "three files; one block of n = 2..%d variants with all 8^n haplotype strings; n = 3%s with every phase-set structure (<= 2 sets per file, unphased variants in file 0)%s" % ((4, "", "; n = 4 with two sets in file 0") if tier == "quick" else (5, "", "; n = 4 with every split of file 0 and file 2 into <= 2 sets"))
 
     def expected(self, pos, rows):
         slots, phases = self.common_view(rows)
